@@ -31,3 +31,28 @@ func TestF3_MountParamPrefix(t *testing.T) {
 		}
 	}
 }
+
+// F31: the routes of a mounted sub-app were prefixed with the mount placeholder's *normalised* path
+// (lower-cased by the app that owns the placeholder), not with the prefix as written.
+func TestF31_NestedMountKeepsPrefixAsWritten(t *testing.T) {
+	build := func(mounted bool) *fiber.App {
+		root := fiber.New(fiber.Config{CaseSensitive: true})
+		h := func(c fiber.Ctx) error { return c.SendString("nested") }
+		if mounted {
+			one, two := fiber.New(), fiber.New()
+			two.Get("/nested", h)
+			one.Use("/Two", two)
+			root.Use("/one", one)
+		} else {
+			root.Group("/one").Group("/Two").Get("/nested", h)
+		}
+		return root
+	}
+	for _, p := range []string{"/one/Two/nested", "/one/two/nested"} {
+		a := do(build(true), "GET", p).Response.StatusCode()
+		b := do(build(false), "GET", p).Response.StatusCode()
+		if a != b {
+			t.Errorf("GET %s: mounted %d, grouped %d", p, a, b)
+		}
+	}
+}
